@@ -252,8 +252,11 @@ def main():
         'checks': checks,
         'notes': "fix: commits in /repo (genuine defects repaired, D1-D13): "
                  "see known_findings.json (status fixed; a fixed entry "
-                 "suppresses nothing) and DESIGN.md section 3.  No known "
-                 "finding is left unrepaired.",
+                 "suppresses nothing) and DESIGN.md section 3.  One known "
+                 "finding is recorded, not repaired: D14 (C12; a plain file "
+                 "that begins with the gzip magic and is shorter than a gzip "
+                 "header) - the C12 check prints KNOWN-FINDING for it and "
+                 "exits 0.",
         'not_applicable': na}
     with open(os.path.join(V, 'MANIFEST.json'), 'w') as f:
         json.dump(man, f, indent=1)
